@@ -24,7 +24,8 @@ Inductive val :=
 | VCtor (name : string) (args : list val)
 | VRec (name : string) (fields : list (string * val))
 | VTuple (vs : list val)
-| VList (vs : list val).
+| VList (vs : list val)
+| VClos (params : list pat) (body : expr).
 
 Inductive outcome :=
 | ONorm (v : val)
@@ -295,6 +296,9 @@ Definition builtin_method (m : string) (r : val) (args : list val) : option (val
   | VStr s, [VN n] =>
       if String.eqb m "truncate" then Some (VStr (str_take (N.to_nat n) s), VUnit)
       else None
+  (* io::Error *)
+  | VCtor "IoError" (k :: _), [] =>
+      if String.eqb m "kind" then Some (r, k) else None
   (* Option *)
   | VCtor "Some" [v], [d] =>
       if String.eqb m "unwrap_or" then Some (r, v) else None
@@ -336,8 +340,32 @@ Definition quiet_macro (m : string) : bool :=
 Section Eval.
   (* user functions, keyed "Type::method" or "function" *)
   Variable fns : list (string * fn_def).
+  (* functions the fragment calls but does not define (trait items of a generic parameter, the
+     source, ...): name -> arguments -> result.  Methods are looked up as ".name" with the receiver
+     as first argument, constants with no argument. *)
+  Variable ext : string -> list val -> option val.
   (* the evaluator at smaller fuel *)
   Variable ev : env -> expr -> env * outcome.
+
+  (* closures are called in the environment of the call site (sufficient for closures that are
+     called where they are defined, the only use in the fragments) *)
+  Definition call_closure (en : env) (ps : list pat) (body : expr) (args : list val) : env * outcome :=
+    let fix bindp (ps : list pat) (vs : list val) : option env :=
+      match ps, vs with
+      | [], [] => Some []
+      | p :: ps', v :: vs' =>
+          match pmatch p v, bindp ps' vs' with
+          | Some b1, Some b2 => Some (app b1 b2)
+          | _, _ => None
+          end
+      | _, _ => None
+      end in
+    match bindp ps args with
+    | None => (en, OErr "closure arity")
+    | Some bs =>
+        let '(en1, o) := ev (bind_all bs en) body in
+        (unbind (List.length bs) en1, match o with ORet v => ONorm v | x => x end)
+    end.
 
   (* evaluate a list of expressions left to right to values *)
   Fixpoint eval_args (en : env) (es : list expr) : env * (list val + outcome) :=
@@ -481,7 +509,11 @@ Section Eval.
         | Some v => (en, ONorm v)
         | None => if is_upper_initial x then (en, ONorm (VCtor x [])) else (en, OErr ("unbound " ++ x))
         end
-    | EPath segs => (en, ONorm (VCtor (last_seg segs) []))
+    | EPath segs =>
+        match ext (String.concat "::" segs) [] with
+        | Some v => (en, ONorm v)
+        | None => (en, ONorm (VCtor (last_seg segs) []))
+        end
     | ERef e' => ev en e'
     | EUnary "*" e' => ev en e'
     | EUnary "!" e' =>
@@ -569,11 +601,19 @@ Section Eval.
         let name := last_seg segs in
         match eval_args en es with
         | (en1, inl vs) =>
-            match lookup name fns with
-            | Some f => call_fn en1 f None vs
-            | None =>
-                if is_upper_initial name then (en1, ONorm (VCtor name vs))
-                else (en1, OErr ("unknown function " ++ name))
+            match segs, lookup name en1 with
+            | [_], Some (VClos ps body) => call_closure en1 ps body vs
+            | _, _ =>
+                match lookup name fns with
+                | Some f => call_fn en1 f None vs
+                | None =>
+                    match ext (String.concat "::" segs) vs with
+                    | Some v => (en1, ONorm v)
+                    | None =>
+                        if is_upper_initial name then (en1, ONorm (VCtor name vs))
+                        else (en1, OErr ("unknown function " ++ name))
+                    end
+                end
             end
         | (en1, inr o) => (en1, o)
         end
@@ -585,13 +625,23 @@ Section Eval.
             | (en2, inl vs) =>
                 let user :=
                   match type_name rv with
-                  | Some t => lookup (t ++ "::" ++ m) fns
+                  | Some t =>
+                      match lookup (t ++ "::" ++ m) fns with
+                      | Some f => Some f
+                      | None => lookup ("*::" ++ m) fns   (* enums: any variant of the type *)
+                      end
                   | None => None
                   end in
                 match user with
                 | Some f =>
                     call_fn en2 f (if is_place en2 recv then Some recv else None) (rv :: vs)
                 | None =>
+                    match vs with
+                    | [VClos ps body] =>
+                        (* `x.with_cow(|c| ...)`-style adaptors: apply the closure to the receiver *)
+                        if String.eqb m "with_cow" then call_closure en2 ps body [rv]
+                        else (en2, OErr ("unknown adaptor " ++ m))
+                    | _ =>
                     match builtin_method m rv vs with
                     | Some (rv', res) =>
                         if is_place en2 recv then
@@ -600,7 +650,14 @@ Section Eval.
                           | None => (en2, OErr "method write-back")
                           end
                         else (en2, ONorm res)
-                    | None => (en2, OErr ("unknown method " ++ m))
+                    | None =>
+                        match ext ("." ++ m) (rv :: vs) with
+                        | Some v => (en2, ONorm v)
+                        | None =>
+                            if String.eqb m "into" || String.eqb m "clone" then (en2, ONorm rv)
+                            else (en2, OErr ("unknown method " ++ m))
+                        end
+                    end
                     end
                 end
             | (en2, inr o) => (en2, o)
@@ -705,23 +762,27 @@ Section Eval.
         | (en1, inr o) => (en1, o)
         end
     | ELet _ _ => (en, OErr "let outside if")
-    | EClosure _ _ => (en, OErr "closure")
+    | EClosure ps body => (en, ONorm (VClos ps body))
     | EIndex _ _ => (en, OErr "index")
     | ERange _ _ => (en, OErr "range")
     | EOther s => (en, OErr ("unsupported: " ++ s))
     end.
 End Eval.
 
-Fixpoint eval (fns : list (string * fn_def)) (fuel : nat) (en : env) (e : expr) : env * outcome :=
+Fixpoint eval_x (fns : list (string * fn_def)) (ext : string -> list val -> option val)
+  (fuel : nat) (en : env) (e : expr) : env * outcome :=
   match fuel with
   | O => (en, OErr "out of fuel")
-  | S f => eval1 fns (eval fns f) en e
+  | S f => eval1 fns ext (eval_x fns ext f) en e
   end.
+
+Definition no_ext (_ : string) (_ : list val) : option val := None.
+Definition eval (fns : list (string * fn_def)) := eval_x fns no_ext.
 
 (* Run a function on argument values; returns the final value of every parameter passed by
    reference (the whole callee environment) and the result. *)
-Definition run_fn (fns : list (string * fn_def)) (fuel : nat) (f : fn_def) (args : list val)
-  : env * outcome :=
+Definition run_fn_x (fns : list (string * fn_def)) (ext : string -> list val -> option val)
+  (fuel : nat) (f : fn_def) (args : list val) : env * outcome :=
   let fix names (ps : list pat) : list string :=
     match ps with
     | PIdent x _ :: r => x :: names r
@@ -729,5 +790,7 @@ Definition run_fn (fns : list (string * fn_def)) (fuel : nat) (f : fn_def) (args
     | [] => []
     end in
   let en := combine (names (fn_params f)) args in
-  let '(en', o) := eval fns fuel en (EBlock (fn_body f)) in
+  let '(en', o) := eval_x fns ext fuel en (EBlock (fn_body f)) in
   (en', match o with ORet v => ONorm v | x => x end).
+
+Definition run_fn (fns : list (string * fn_def)) := run_fn_x fns no_ext.
